@@ -33,14 +33,14 @@ def make_name(namer, level_idx, idx):
         return f'{pre}{idx:02d}'
     if s == 'shared':
         # the same names occur at every level (e.g. a subclass and its only cluster share a name)
-        return f'n{(idx * 7 + namer["salt"]) % 97:02d}'
+        return f'n{(idx * 37 + namer["salt"]) % 97:02d}'
     if s == 'scrambled':
-        return f'{pre}{(idx * 7 + namer["salt"]) % 97:02d}'
+        return f'{pre}{(idx * 37 + namer["salt"]) % 97:02d}'
     if s == 'numeric':
         # numeric looking; unique per level; '10' < '2' alphabetically
-        return str((idx * 7 + namer['salt']) % 97 + 100 * level_idx)
+        return str((idx * 37 + namer['salt']) % 97 + 100 * level_idx)
     if s == 'odd':
-        return f'{pre}{namer["odd"]}{(idx * 7 + namer["salt"]) % 97}'
+        return f'{pre}{namer["odd"]}{(idx * 37 + namer["salt"]) % 97}'
     raise ValueError(s)
 
 
